@@ -111,6 +111,43 @@ func (d *D) runL2Item(idx int, ctx *core.Ctx) {
 	sc.Tier = ctx.Tier
 	sc.Level = "L2"
 	r := core.ItemRNG(ctx.Seed, "C15-l2", idx)
+	if idx%50 == 7 {
+		// a flood: many hundreds of events arrive while one handler sleeps (a pointer dragged across
+		// the canvas while a slow handler runs); every one of them is handled afterwards, in order
+		n := []int{300, 600, 700, 1500}[r.Intn(4)]
+		sc.Program = "total := 0\nlast := \"\"\non move x:num y:num\n    if total == 0\n        sleep 0.5\n    end\n    total = total + 1\n    last = sprint x y\nend\non key k:string\n    print \"key\" k total last\nend\non down x:num y:num\n    print \"down\" x y total last\nend\n"
+		sc.Inputs = nil
+		sc.Events = []core.Event{{Name: "move", Num: []string{"0", "0"}}}
+		for i := 1; i <= n; i++ {
+			e := core.Event{Name: "move", Num: []string{fmt.Sprint(i % 100), fmt.Sprint((i * 7) % 100)}}
+			if i%97 == 0 {
+				e = core.Event{Name: "key", Str: []string{[]string{"q", "Enter", "é"}[i%3]}}
+			}
+			sc.Events = append(sc.Events, e)
+		}
+		sc.Events = append(sc.Events, core.Event{Name: "down", Num: []string{"1", "2"}})
+		sc.Kind = "l2:flood"
+		for i := range sc.Events {
+			sc.Events[i].AtNs = 1_000_000 + int64(i)*300_000 // all within the first handler's half second
+		}
+		sc.Events[len(sc.Events)-1].AtNs = 2_000_000_000
+		sc.Schedule.ClockCostNs = 5_000
+		v, note, a := checkL2(sc)
+		ctx.Inc("evaluations", 2)
+		if note != "" {
+			ctx.Inc("discarded:l2:"+note, 1)
+			return
+		}
+		ctx.Inc("l2_pairs_compared", 1)
+		ctx.Inc("pairs_compared", 1)
+		ctx.Inc("l2_flood_scenarios", 1)
+		ctx.Inc("events_delivered", int64(len(a.Calls)))
+		ctx.Inc("probe_l2_event_arrived_while_busy", int64(a.ArrivedWhileBusy))
+		if v != nil {
+			ctx.Violate(sc, v)
+		}
+		return
+	}
 	// arrival times: bursts, gaps longer than a handler's sleep, and everything in between
 	var t int64
 	for i := range sc.Events {
